@@ -386,11 +386,20 @@ impl<'a> TypeMapPass<'a> {
         for (from, to) in &self.cfg.typemap {
             if segs.len() >= from.len() && segs[..from.len()] == from[..] {
                 let rest: Vec<syn::PathSegment> = p.segments.iter().skip(from.len()).cloned().collect();
+                // a target written `Name<>` keeps the generic arguments of the last matched segment
+                let (to, keep_args) = match to.strip_suffix("<>") { Some(t) => (t.to_string(), true), None => (to.clone(), false) };
+                let to = &to;
+                let kept_args = p.segments.iter().nth(from.len() - 1).map(|s| s.arguments.clone());
                 let newp: syn::Path = match syn::parse_str(to) {
                     Ok(x) => x,
                     Err(_) => return false,
                 };
                 let mut np = newp;
+                if keep_args {
+                    if let (Some(a), Some(last)) = (kept_args, np.segments.last_mut()) {
+                        last.arguments = a;
+                    }
+                }
                 for r in rest {
                     np.segments.push(r);
                 }
